@@ -162,9 +162,10 @@ class ScheduledProcessPool(ScheduledExecutor):
     kind = 'process'
 
 
-def explore(run, limit=None):
+def explore(run, limit=None, max_deviations=None):
     '''run() executes the code under test once (it must be re-entrant: fresh objects every time).  Yields (trace, completion_order, result) for every
-    feasible schedule; result is run()'s return value.'''
+    feasible schedule; result is run()'s return value.  max_deviations bounds the number of points at which a task other than the earliest started
+    one completes first (iterative context bounding: every schedule with at most that many deviations is executed, none with more).'''
     pending = [[]]
     count = 0
     while pending:
@@ -184,6 +185,8 @@ def explore(run, limit=None):
             return
         for i in range(len(s.trace) - 1, len(prefix) - 1, -1):
             c, n = s.trace[i]
+            if max_deviations is not None and sum(1 for x in choices[:i] if x) >= max_deviations:
+                continue
             for alt in range(n - 1, c, -1):
                 pending.append(choices[:i] + [alt])
 
